@@ -285,10 +285,22 @@ def incomplete_viewbox(ctx):
                   and any(h.type is None or "IndexError" in ast.unparse(h.type) for h in t.handlers) for t in ast.walk(sv))
     pv = ctx.fn("SVG.property_by_values", "R11.6")
     normalised = False
+    from ..flow import guard_implies
+
+    def not_none(field):
+        def atom_test(test, positive):
+            if isinstance(test, ast.Compare) and len(test.ops) == 1 and attr_chain(test.left) == ["self", "viewbox", field] and isinstance(test.comparators[0], ast.Constant) \
+                    and test.comparators[0].value is None and isinstance(test.ops[0], (ast.Is, ast.IsNot)):
+                return isinstance(test.ops[0], ast.IsNot) == positive
+            return False
+        return atom_test
+
     for st in stmts_in(pv.body):
         if isinstance(st, ast.If) and any(isinstance(a, ast.Assign) and attr_chain(a.targets[0]) == ["self", "viewbox"] and isinstance(a.value, ast.Constant) and a.value.value is None for a in st.body):
-            fields = {ch[-1] for c in ast.walk(st.test) if isinstance(c, ast.Compare) and isinstance(c.ops[0], ast.Is) for ch in [attr_chain(c.left)] if ch and ch[:2] == ["self", "viewbox"] and len(ch) == 3}
-            if {"width", "height"} <= fields:
+            # `self.viewbox is not None and <incomplete>`: the holder test is set aside; when <incomplete> is false both sizes exist
+            parts = list(st.test.values) if isinstance(st.test, ast.BoolOp) and isinstance(st.test.op, ast.And) else [st.test]
+            parts = [p_ for p_ in parts if not (isinstance(p_, ast.Compare) and attr_chain(p_.left) == ["self", "viewbox"])]
+            if len(parts) == 1 and guard_implies(parts[0], False, not_none("width")) and guard_implies(parts[0], False, not_none("height")):
                 normalised = True
     ctx.ob("R11.6", "Viewbox.set_viewbox[premise: may stop after some fields]", True,
            "set_viewbox may stop after some fields: %s; SVG.property_by_values drops an incomplete viewBox: %s" % (partial, normalised), sv.lineno,
